@@ -164,11 +164,21 @@ def run_session(exe, d, idx, calls, timeout=25):
     return idx, lines, abnormal
 
 
-def run_sessions(exe, d, scripts, base=0):
-    res = [None] * len(scripts)
+def run_sessions(exe, d, scripts, base=0, max_hangs=40):
+    """Runs the sessions in batches; once more than max_hangs sessions hit the watchdog the rest is not run
+    (each costs a watchdog period) and is returned as empty."""
+    res = [([], None)] * len(scripts)
+    hangs = 0
+    batch = 4 * C.NCPU
     with concurrent.futures.ThreadPoolExecutor(max_workers=C.NCPU) as ex:
-        for idx, lines, ab in ex.map(lambda a: run_session(exe, d, base + a[0], a[1]), enumerate(scripts)):
-            res[idx - base] = (lines, ab)
+        for b0 in range(0, len(scripts), batch):
+            part = list(enumerate(scripts))[b0:b0 + batch]
+            for idx, lines, ab in ex.map(lambda a: run_session(exe, d, base + a[0], a[1]), part):
+                res[idx - base] = (lines, ab)
+                if ab and ab["kind"].startswith("hang"):
+                    hangs += 1
+            if hangs > max_hangs:
+                break
     return res
 
 
@@ -202,7 +212,8 @@ def random_session(rng):
         g = rng.choice(defined + defined + IDS)
         if r < 0.45:
             n = rng.choice([1, 8, 100, 100, 1000, 0, 3, 4000 if p == "w" else 300])
-            sid = nxt[g] if rng.random() < 0.8 else rng.choice(BIG)
+            # a sample id far beyond the next one is a valid request for a gap that long (gigabytes of fill): stay modest
+            sid = nxt[g] if rng.random() < 0.8 else rng.choice([0, 1, 2, 7, 99, 100, 101, 1000, 65535, -1, -2, -100, nxt[g] + 1, nxt[g] + 100000])
             calls.append("%sfsr %d %d %d" % (p, g, sid, n))
             if sid == nxt[g]:
                 nxt[g] += n
@@ -224,6 +235,19 @@ def random_session(rng):
     for _ in range(rng.randint(3, 30)):
         r = rng.random()
         g = rng.choice(defined + defined + IDS)
+        L = nxt.get(g, 0)
+        if L > 0 and rng.random() < 0.35:
+            # windows that end exactly at the end of the signal, or one sample past it
+            over = rng.choice([0, 1, 1])
+            if rng.random() < 0.5:
+                n = rng.choice([1, 2, 3, L])
+                n = max(1, min(n, L))
+                calls.append("rfsr %d %d %d" % (g, L - n + over, n))
+            else:
+                cnt = rng.choice([1, 1, 2, 4])
+                incr = max(1, rng.choice([1, 7, L // cnt, (L + cnt - 1) // cnt]))
+                calls.append("rstats %d %d %d %d" % (g, L + over - incr * cnt, incr, cnt))
+            continue
         if r < 0.3:
             calls.append("rfsr %d %d %d" % (g, rng.choice(BIG), rng.choice(BIG)))
         elif r < 0.35:
@@ -275,6 +299,7 @@ def run(tier):
     budget = len(pairs) if thorough else 15000
     rounds = 0
     base = 0
+    nhang = 0
     while uncovered and rounds < (40 if thorough else 6):
         rounds += 1
         want = uncovered
@@ -311,12 +336,19 @@ def run(tier):
                 else:
                     break
         ck.log("round %d: %d sessions, %d pairs newly covered, %d left" % (rounds, len(scripts), before - len(uncovered), len(uncovered)))
+        nhang += sum(1 for (_l, ab) in res if ab and ab["kind"].startswith("hang"))
+        if nhang > 40:
+            # sessions that do not return each cost a watchdog period: enough evidence, stop exploring
+            ck.log("%d sessions did not return within the watchdog period: exploration stopped early" % nhang)
+            break
         if before == len(uncovered):
             break
     ncovered = len(pairs) - len(uncovered)
 
     # 3. random sessions with arbitrary values
     nrand = 4000 if thorough else 300
+    if nhang > 40:
+        nrand = 40
     rscripts = [random_session(rng) for _ in range(nrand)]
     res = run_sessions(exe, sc, rscripts, base)
     for calls, (lines, ab) in zip(rscripts, res):
